@@ -73,7 +73,9 @@ CLAIMED = {
              'elaboration a swallowed violation necessarily shows up as such a drop or call, so this is exact for "a violation value is '
              'discarded"; (2) the same for error values, where dropping/inspecting is allowed only inside the documented handlers '
              '(is_error, if_error, get_error) or when a clone was forwarded; (3) must-pass-through: every origin of the argument vector of a user call (the parameter, and the TailCall payload taken by the '
-             'trampoline) passes the erroring-argument test before from_template; (4) by element types, collections cannot hold errors. NOT decided: the leftmost-error order among '
+             'trampoline) passes the erroring-argument test before from_template; (4) by element types, collections cannot hold errors; (5) no position-dropping iterator adaptor '
+             '(skip, step_by, nth, last, ...) is applied to an iterator whose items can carry a violation, and closure-deciding adaptors (skip_while, filter, ...) keep a violation item '
+             '(the closure is evaluated abstractly on a violation). NOT decided: the leftmost-error order among '
              'several simultaneous errors beyond the argument-order rule of C02.',
         note='Trusted: rustc drop elaboration; the book as the list of handlers. Two exemptions with reasons in rules/c06.py (E_EXEMPT).',
         technique='static analysis: path-sensitive drop/linearity analysis (drop flags × discriminants) and combinator inventory on resolved MIR',
@@ -98,9 +100,10 @@ CLAIMED = {
              'Totality is decided partially: every rule-dispatching match covers all alternatives of the grammar choice it dispatches on '
              '(computed from the pest rule tree), unwrap chains on rule children stay within the guaranteed children, and every explicit '
              'panic!/unreachable!/unimplemented! of the compile phase is a covered dispatch default or listed with a reason; text-to-number '
-             'conversions are never unwrapped. Determinism: hash-order iteration reaches only order-insensitive sinks; the only process-global '
-             'mutable state is the scope-id counter, used for equality only. NOT decided: termination/complexity of parsing, message contents, '
-             'panics inside library code or implicit (index/arithmetic) panics.',
+             'conversions are never unwrapped; every position-indexed access of the compile phase (and every slice of source text with constant bounds) is dominated by a length test of the same collection or listed with a reason; '
+             'the grammar has no repetition whose item can be re-parsed exponentially (pest optimiser modelled). Determinism: hash-order iteration reaches only order-insensitive sinks; the only process-global '
+             'mutable state is the scope-id counter, used for equality only; Debug of hash containers that reaches error text is order-independent. NOT decided: termination of parsing in general, message contents, '
+             'panics inside library code or arithmetic panics.',
         note='Trusted: rustc call resolution; pest produces exactly the pairs its grammar describes; the listed panic reasons (rules/c12.py PANIC_OK) were confirmed by reading.',
         technique='static analysis: call-graph reachability + type/capability audit on resolved MIR; grammar-tree vs match-arm agreement (pest_meta + syn); panic and hash-order inventories',
         design='2/C12'),
@@ -113,8 +116,12 @@ CLAIMED = {
              'path (compile and prepare_return), and the host entry point refuses unfulfilled functions; the capture re-threading protocol '
              '(request depth-1, rewritten depth 1 at parent.cells.len()+k, requests pushed to the parent before any other cell allocation, '
              'parent id = enclosing scope id); name lookup order; both runtime ancestor walks compare template ids with the compile-time '
-             'parent id. NOT decided: that the resolved (depth, index) pairs are right for every nesting shape.',
-        note='Trusted: rustc MIR, syn; python re as the reading of the interner regex literal.',
+             'parent id; the forward gate is transitive (a definition that fulfils a declaration stores its own outstanding requirements in the '
+             'declaration\'s cell on every registering path, and require_forwards passes the requirements of a fulfilled declaration\'s cell on to its '
+             'work list); a function value created over a pending capture follows the pending chain first and stays pending only if the cell is still '
+             'unfilled. NOT decided: that the resolved (depth, index) pairs are right for every nesting shape. One known finding: pending captures '
+             'are resolved through lexical parent links with expect(), which an escaped function value does not have.',
+        note='Trusted: rustc MIR, syn; python re as the reading of the interner regex literal. Known finding R03.10 in known_findings.json.',
         technique='static analysis: who-reads, must-pass-through (avoiding-path reachability), call-graph may-allocate closure, syntax-tree shape rules',
         design='2/C03'),
     'C04': dict(
@@ -150,9 +157,10 @@ CLAIMED = {
              'arguments (constant argument indices within the required arity or under an args.len() test / args.get, to_primitive!/to_native! '
              'downcasts equal to the declared parameter type class, constructed result variants equal to the declared primitive return type): '
              '~800 facts; every explicit panic of the evaluator listed with the checker obligation that discharges it; every checked unsigned '
-             'subtraction in builtins guarded by a dominating comparison of the same operands or listed with a reason (and, where the reason is '
+             'subtraction in builtins guarded by a dominating comparison of the same operands (in the body, or at every call site of a private helper) or listed with a reason (and, where the reason is '
              'a match arm, revalidated structurally); list-shaped owning links have an iterative Drop; machine arithmetic on the small integer form that can overflow ((i64::MIN,-1), '
-             '-i64::MIN; operators and the division-family methods) is excluded by an earlier match arm. NOT decided: soundness of the type rules '
+             '-i64::MIN; operators and the division-family methods) is excluded by an earlier match arm; get_func_with_type, evaluated abstractly, accepts a '
+             'callback only when its return type equals the expected one (natives downcast callback results by that type). NOT decided: soundness of the type rules '
              'for all programs, absence of all panics (index/library panics, multiplication overflow).',
         note='Trusted: rustc MIR, syn; the reasons in EVAL_PANICS / SUB_OK (rules/c01.py). Three known findings (combinatorics on usize) in known_findings.json.',
         technique='static analysis: registration-vs-closure table agreement on the syntax tree; dominating-guard recognition on MIR asserts; panic inventory; ADT shape audit',
@@ -173,19 +181,21 @@ CLAIMED = {
     'C17': dict(
         level='other',
         text='Structural clauses decided for every site: values immutable after construction (type-closure audit, so every update returns a '
-             'new collection and earlier versions cannot change); each insertion of a new key is paired with exactly one len += 1 and an '
-             'overwrite with none, each removal rebuilds with len-1 after a Found match; the two locate routines have the same shape (hash, '
-             'to_u64 with out-of-bounds error, bucket scan with eq(probe, stored), Vacant/Missing/Found); no producer stores an empty bucket, '
-             'because hash() and the size model fold over all buckets (the producer/consumer agreement behind "equal collections hash '
-             'equally"). NOT decided: agreement with an association-list model under arbitrary consistent hash functions (value level).',
-        note='Trusted: syn parse, rustc MIR for the audit, borrow checking (no &mut through Rc).',
-        technique='static analysis: type-closure immutability audit on MIR; syntax-tree pairing rules; sibling-implementation cross-check',
+             'new collection and earlier versions cannot change); on every path from the examination of a KeyLocation (variant knowledge carried along the path) '
+             'a stored element is paired with exactly one len + 1, a Found location stores nothing and leaves len alone, and a collection is rebuilt with len - 1 only where a Found '
+             'location is established (in the body or at every call site); the two locate routines have the same summary (hash called on [key], '
+             'to_u64 with failure exit, bucket looked up by that hash, eq called on [key, stored] in that order over the whole bucket with no position-dropping adaptor, '
+             'Vacant/Missing/Found all carrying the converted hash), helpers included; every bucket handed to the table is a non-empty literal or stored on the is_empty()==false edge of a test of that bucket, '
+             'because hash() and the size model fold over all buckets; a KeyLocation is used only on the collection it was computed on with no write in between, or on an unwritten clone of it. '
+             'NOT decided: agreement with an association-list model under arbitrary consistent hash functions (value level).',
+        note='Trusted: rustc MIR, borrow checking (no &mut through Rc).',
+        technique='static analysis: type-closure immutability audit; variant-aware path counting; value-origin summaries with sibling cross-check; typestate of key locations (receiver identity + write-free paths) on resolved MIR',
         design='2/C17'),
     'C18': dict(
         level='other',
         text='Structural clauses decided for every site: every FencedString literal keeps buffer and code-point table consistent (no reuse of '
              'the table over a re-encoded buffer; the case-mapping siblings agree); every native that calls substring/substr with an '
-             'argument-derived start tests it against the length first; a unit analysis on the MIR (byte offsets vs code-point counts, origins walked backwards through statements, calls and closures) '
+             'argument-derived start tests it against the length first, and, because that test admits start == len, FencedString looks a caller-supplied position up in the code-point table only by length-tolerant accesses (get / range slice / index under a length test); a unit analysis on the MIR (byte offsets vs code-point counts, origins walked backwards through statements, calls and closures) '
              'shows that no byte offset reaches a code-point sink (substring/substr indices, padding widths, integers returned by the str and regex '
              'natives) and no program-supplied index reaches a byte API (&str slicing, regex Input ranges) without conversion; the escape table equals the book\'s list with validated \\u{..} scalars; raw strings '
              'bypass unescaping while quoted and f-string text parts go through it. NOT decided: agreement of split/replace/strip/... (xray '
@@ -211,10 +221,12 @@ CLAIMED = {
              'outside the audited utilities can reach a value, so no operation alters a sequence it was applied to). Structural clauses of the '
              'representations: natives hand XSequence::get only indices produced by value_to_idx (whose negative / infinite / unrepresentable '
              '/ out-of-range exits are checked); Chain and Slice literals occur only inside their invariant-keeping constructors and a slice of '
-             'a slice is flattened by adding offsets; the Range literal is built only after the zero-step and emptiness tests. NOT decided: '
+             'a slice is flattened by adding offsets (the operands of the rebuilt Slice come from the inner payload plus the request); whether slice() builds a Slice at all is decided '
+             '(control + data dependence closure) by tests of start against end and against the length; the Range literal is built only after the zero-step and emptiness tests; '
+             'value_to_idx compares the converted index with the length as idx >= len / idx < len wherever the test is written; natives never order two raw index arguments before normalising them. NOT decided: '
              'agreement of len/get/slice/... with list semantics for all compositions (value level).',
         note='Trusted: rustc MIR, syn parse.',
-        technique='static analysis: type-closure immutability audit; who-constructs rules; backward slice from index operands; dominance of guards — on resolved MIR',
+        technique='static analysis: type-closure immutability audit; who-constructs rules; backward slices, control-dependence closure and operand-origin classification of comparisons on resolved MIR',
         design='2/C15'),
     'C16': dict(
         level='other',
